@@ -15,7 +15,8 @@ VARIABLES chain, arr,   \* the case
           cand,         \* integers: all 12 compress() candidates return Smallest(arr) exactly
           reps,         \* the memory representations under which the driver executes the case (RepsOf(arr));
                         \* the expected outcome / values are the same for all of them
-          kbrep,        \* recorded defects that depend on the representation: pairs <<rep, class>>
+          kbrep,        \* recorded defects that depend on the representation: triples <<rep, class, outcome of the
+                        \* code-shaped model ("ok": other values come back / "Rejected": a later step refuses them)>>
           repfree       \* the code-shaped first encoding step gives the same result under every representation
 vars == <<chain, arr, done, exp, impl, form, acc, kb, cand, reps, kbrep, repfree>>
 
@@ -94,7 +95,7 @@ Compute ==
   /\ cand' = (arr.t \in IntTypes /\ arr.v # <<>> /\ Dom_NoWrap32(arr) =>
                  \A c \in Candidates : LET r == ImplRoundTrip(c, Smallest(arr)) IN r.oc = "ok" /\ r.a.v = arr.v)
   /\ reps' = {r \in RepsOf(arr) : Dom_RepSafe(chain, arr, r)}
-  /\ kbrep' = UNION {{<<r, k>> : k \in KB_Rep(chain, arr, r)} : r \in RepsOf(arr)}
+  /\ kbrep' = UNION {{<<r, k, SerializeDataR(chain, arr, r).oc>> : k \in KB_Rep(chain, arr, r)} : r \in reps'}
   /\ repfree' = RepFree(chain, arr)
   /\ UNCHANGED <<chain, arr>>
 Next == Compute
